@@ -568,9 +568,6 @@ def run_arith(spec):
         fn, neutral = FN[op]
         exp = m_bin(A, B, fn, join, columns, neutral, flags)
         zero_scalar_div = op == 'div_' and B[0] == 'c' and B[1] == 0
-    if flags.narrow_intermediate:
-        # excluded by construction; a hand-written replay may still reach it (see KNOWN)
-        return dict(nt=False, cls=['narrow_intermediate_not_judged'])
     compare(res, exp, what, tol=1e-12 if op == 'div_' else None, no_inf=(op == 'div_'), nan_scalar_ok=zero_scalar_div)
     # ---- commutativity of the binary form
     extra = ['op=' + op, 'form=' + spec['form'], 'join=' + join, 'columns=' + columns]
@@ -581,6 +578,8 @@ def run_arith(spec):
         extra.append('commutativity_checked')
     all_ops = spec['lhs'] + (spec['rhs'] or [])
     nt, cls = _classes(all_ops, extra)
+    if flags.narrow_intermediate:
+        cls.append('narrow_intermediate')      # never generated (see KNOWN); reachable through a hand-written replay only
     if op == 'div_':
         zero = _has_zero_divisor(B)
         if zero:
@@ -725,22 +724,22 @@ KNOWN = {'narrow_intermediate': _narrow_intermediate}
 
 
 SUBS = [
-    Sub('arith', lambda tier: _arith_case(), run_arith, quick=4000, thorough=20000,
+    Sub('arith', lambda tier: _arith_case(), run_arith, quick=2400, thorough=20000,
         rule='add_/sub_/mul_/div_ on 2-4 operands (float/int Series, 2-3 column frames over {a,b,c,d}, scalars incl. 0 and NaN) on a 12-day axis; '
              'index policies ij/oj x column policies ij/oj; forms op(a,b), op([..]), op([..],[..]); oracle: per-timestamp dictionary model folded left to right, '
              'neutral element for one-sided columns, zero divisor -> NaN and no inf, op(a,b)==op(b,a) for add_/mul_. '
              'non-trivial = partially overlapping indices with a NaN or 0 inside the overlap, or frames with differing column sets',
         floor=0.2, class_floors={'neutral_element_used': 0.04, 'zero_divisor_cell': 0.05, 'commutativity_checked': 0.1, 'partial_overlap': 0.2,
                                  'series_with_frame': 0.1, 'scalar': 0.15, 'empty_operand': 0.05, 'disjoint_indices': 0.05}),
-    Sub('cmp_pow', lambda tier: _cmp_case(), run_cmp_pow, quick=2000, thorough=10000,
+    Sub('cmp_pow', lambda tier: _cmp_case(), run_cmp_pow, quick=1200, thorough=10000,
         rule='pow_ (exponents 0..3, 0.5, NaN) and gt_/ge_/lt_/le_ on two operands, same operand universe and policies; oracle: the same alignment model with '
              'math.pow / Python comparisons; cells of one-sided columns under columns=oj are not judged. non-trivial as in arith',
         floor=0.2, class_floors={'both_outcomes': 0.15, 'partial_overlap': 0.2, 'op=pow_': 0.2}),
-    Sub('minmax', lambda tier: _minmax_case(), run_minmax, quick=2000, thorough=10000,
+    Sub('minmax', lambda tier: _minmax_case(), run_minmax, quick=1200, thorough=10000,
         rule='min_/max_ on 2-4 operands (Series, scalars, frames with one common column set), forms (a,b), ([..]), ([..],[..]); oracle: NaN-propagating '
              'min/max on the aligned cells. non-trivial = partially overlapping indices with a NaN or 0 inside the overlap',
         floor=0.2, class_floors={'partial_overlap': 0.25, 'series_with_frame': 0.1}),
-    Sub('agg', lambda tier: _agg_case(), run_agg, quick=2000, thorough=10000,
+    Sub('agg', lambda tier: _agg_case(), run_agg, quick=1200, thorough=10000,
         rule='df_sum/df_mean/df_count on 2-4 Series or 2-4 multi-column frames (column sets may differ), default policies; oracle: union index, '
              'sum/mean over the non-NaN operands, count of them, NaN (count 0) where none. non-trivial as in arith',
         floor=0.3, class_floors={'cell_without_data': 0.3, 'cell_with_data': 0.5, 'differing_columns': 0.1}),
